@@ -27,7 +27,9 @@ def run(path):
                 return 1
             print("not reproduced on the current tree (%d evaluations, no violation)" % res["evaluations"])
             return 0
-        if "trace" in det and "trace_spec" in det:
+        if det.get("driver") == "joe" and "scenario_seed" in det:
+            det["trace_spec"] = "JoeTrace"
+        if "trace_spec" in det:
             from . import tracecheck
             return tracecheck.replay(ctx, rec)
         print("replay file has no re-runnable payload; recorded violation: %s" % rec.get("what"))
